@@ -47,7 +47,7 @@ PROPS = {
 }
 
 PROPS["C01"] = dict(
-    units=["bulkhead"],
+    units=["bulkhead", "builders2"],
     title="Bulkhead never exceeds max_concurrent_calls",
     level_text="Deductive proof (Verus) on the real bodies of Bulkhead::{new,call,poll_ready} and the field-wise expansion of its derived Clone: the semaphore every clone shares is created with exactly "
                "max_concurrent_calls permits; in every execution of call() the inner call is made, and the inner future is awaited, only while this task holds a permit of that semaphore "
@@ -60,7 +60,7 @@ PROPS["C01"] = dict(
     trusted=COMMON_TRUST, excluded=["anything inside tokio (fairness, wake-ups)"],
 )
 PROPS["C07"] = dict(
-    units=["bulkhead"],
+    units=["bulkhead", "builders2"],
     title="Bulkhead never loses capacity, rejects only by timeout",
     level_text="Deductive proof (Verus) on the real call body: a rejected call never reaches the inner service; the timeout error is returned iff the timer fired, and the duration handed to the timer is exactly "
                "max_wait_duration; BulkheadFull only when the semaphore reports closed (nothing in the crate closes it: syntactic frame check); nothing but the semaphore gates admission (no sleep, no second acquire); "
@@ -127,7 +127,7 @@ PROPS["C13"] = dict(
 )
 
 PROPS["C02"] = dict(
-    units=["limiter"],
+    units=["limiter", "builders2"],
     title="Rate limiter admits at most limit_for_period calls per window",
     level_text="Deductive proof (Verus) on the real bodies of the three window states, the dispatcher, SharedRateLimiter::acquire and RateLimiter::call: Ok(ZERO) is returned exactly when a permit/log entry/count was consumed "
                "(recorded in the task's trace), a fixed window or bucket is replaced only when it is at least refresh_period old and starts full/empty, available <= limit and current_count <= limit are invariants, the sliding log "
@@ -141,7 +141,7 @@ PROPS["C02"] = dict(
     trusted=COMMON_TRUST, excluded=["fairness among waiters", "the global window-partition lemma is a meta-argument over the per-step clauses, not a machine-checked lemma"],
 )
 PROPS["C15"] = dict(
-    units=["limiter"],
+    units=["limiter", "builders2"],
     title="Rate limiter decides within timeout; rejected calls go nowhere",
     level_text="Deductive proof (Verus), same unit as C02: every wait returned by try_acquire is at most timeout_duration and acquire sleeps at most that in total, with no other await; Err when the next slot is beyond the timeout; "
                "a rejected call makes no inner call and returns RateLimited, an admitted call makes exactly one with the unchanged request; immediate admission when the window has capacity; after a full idle period the fixed window "
@@ -303,7 +303,7 @@ PROPS["C20"] = dict(
 )
 
 PROPS["C12"] = dict(
-    units=["hedge"],
+    units=["hedge", "builders2"],
     title="Hedge starts a bounded number of attempts and fails only when all have failed",
     level_text="Deductive proof (Verus) on the whole real body of execute_with_hedging (a tokio::select! loop over spawned tasks) through rule R17: every `tokio::spawn(async move { B })` runs B in line and `select!` becomes a "
                "nondeterministic choice among its enabled branches, with the result channel as ghost state from which recv may return ANY pending message. Loop invariants: one inner call per started attempt, never more than "
